@@ -940,6 +940,13 @@ impl<Front: SocketHandler, L: ListenerHandler> Pipe<Front, L> {
                 }
                 SocketResult::WouldBlock => {
                     self.backend_readiness.event.remove(Ready::READABLE);
+                    // The response that was in flight may have been the last thing
+                    // keeping alive a session whose client already ended its stream.
+                    if !self.check_connections() {
+                        self.reset_readiness_for_close();
+                        self.log_request_success(metrics);
+                        return SessionResult::Close;
+                    }
                 }
                 SocketResult::Continue => {}
             }
@@ -1338,6 +1345,12 @@ impl<Front: SocketHandler, L: ListenerHandler> Pipe<Front, L> {
             }
             SocketResult::WouldBlock => {
                 self.backend_readiness.event.remove(Ready::READABLE);
+                // see `backend_readable`
+                if !self.check_connections() {
+                    self.reset_readiness_for_close();
+                    self.log_request_success(metrics);
+                    return SessionResult::Close;
+                }
             }
             SocketResult::Continue => {}
         }
